@@ -75,6 +75,10 @@ def m2Of (j : Json) : R (M2 QI) := do
 def mobiusOp (j : Json) : R Json := do
   let M ← m2Of (← field j "m")
   let pts ← (← arr (← field j "pts")).mapM ptOf
+  if pts.size = 4 then
+    -- the four points of a disk (boundary triple, interior point): the model's `actDisk`
+    let d := actDisk M (pts[0]!, pts[1]!, pts[2]!, pts[3]!)
+    return .arr #[ofPt d.1, ofPt d.2.1, ofPt d.2.2.1, ofPt d.2.2.2]
   return .arr (pts.map fun p => ofPt (act M p))
 
 def crossOp (j : Json) : R Json := do
